@@ -196,6 +196,10 @@ def fwd_setup(I, args):
 
 
 def extra(rep, tier, seed, budget):
+    # `_reset` declines the pull requests the host returns for its integration branches; on GitHub the lookup must be
+    # restricted to <owner>:<branch> (bounded stand-in of the adapter, labelled bounded)
+    from bounded import github_adapter as _gh
+    _gh.integrate(rep, ('pull_request_lookup',))
     from pyvc.cli import write_replay
     # "the next evaluation rebuilds the integration branches": the answer to reset / force_reset must always be posted,
     # otherwise the command comment stays the last word and is executed again at every evaluation (fact shared with C10)
